@@ -83,7 +83,12 @@ def design (j : Json) : R Json := do
   if designRaises line then return jObj [("error", jStr "TypeError")]
   let sels ← fList getSel j "sels"
   let pref ← fF j "pref"
-  let prefTotal ← fF j "pref_total"
+  -- the design load: either given (pref_total) or derived from the reference channel count / the design band
+  let prefTotal ← match optFld j "band_spacing" with
+    | some _ => do
+      let nb := designChannels (← fOpt getInt j "nb_ref") (← fInt j "band_fmin") (← fInt j "band_fmax") (← fInt j "band_spacing")
+      pure (prefTotalDb pref nb)
+    | none => fF j "pref_total"
   let srcPower ← fF j "src_power"
   let dstIsRoadm := ch.dstKind == .roadm
   let inputs := ampInputs dstIsRoadm line sels
@@ -96,7 +101,7 @@ def design (j : Json) : R Json := do
                ("outs", jList (fun om => jObj [("o", jAmpOut om.1 om.2.1), ("m_target", jF om.2.2)]) (outs.zip ms)),
                ("inputs", jList (fun a => jObj [("node_loss", jF a.nodeLoss), ("next_loss", jF a.nextLoss),
                                                 ("next_is_roadm", jBool a.nextIsRoadm)]) inputs),
-               ("line", jList jElem line), ("ref_in", jList jF refs)]
+               ("line", jList jElem line), ("ref_in", jList jF refs), ("pref_total", jF prefTotal)]
 
 def handlers : List (String × Handler) := [("c09.r2f", r2f), ("c09.target", target), ("c09.design", design)]
 
